@@ -1,20 +1,31 @@
 """C03 — every written XML scenario file is valid against the 2020a schema (and accepted by the own reader).
 oracle: generated schema-expressible scenarios (70% with the edge stream of magnitudes) written by the real writer,
         validated with lxml against the shipped XSD, read by the real reader
+tables: coq/Gen/Xsd2020a.v — the shipped XSD translated (fail-closed, props/c03_xsd.py) on every run into the data
+        the Gallina validator Model/XsdCheck.v runs on; coq/Gen/XmlFmt.v, XsdOrder.v — the writer's table
 corr:   relation A of Corr/C01.v with the DOCUMENT ORDER kept inside xs:sequence elements: the tree written by
-        the implementation = write W v (ties the order theorem to the code); float_to_str / number formatting"""
+        the implementation = write W v (ties the theorems to the code); float_to_str / number formatting;
+        relations V and S of Corr/C03.v (props/c03_corr.py): the Gallina validator = lxml's verdict on the written
+        documents, on deliberately perturbed variants of them, and on single leaf texts per simple type"""
+import os
 import re
 from fractions import Fraction
 
 import numpy as np
 
 import gen_tables
-from props import c01, codec_run
+from props import c01, c03_corr, c03_xsd, codec_run
 from vlib.flow import load_corpus
 
 RULE = c01.RULE + "; for C03 70% of the scenarios use the edge stream (1e-7 .. 1e5, lengths below 1e-4, orientations 1e-6)"
-ASSUME = ["lxml's XMLSchema validator is the arbiter of validity (not modelled)",
-          "np.format_float_positional prints the shortest round-trip repr in positional notation"]
+ASSUME = ["lxml's XMLSchema validator is the arbiter of validity; the Gallina validator (the XSD subset the shipped schema "
+          "uses, generated from the file) is compared with it on every written document, on perturbed variants and on "
+          "leaf texts (relations V, S) - agreement is observed, not proved",
+          "number printer (hypothesis num_printer_ok of the theorems): plain decimal text, a positive number is not "
+          "printed as zero; float_to_str's lexical half is proved, np.format_float_positional (number_to_str) prints "
+          "the shortest round-trip repr in positional notation (checked per case)",
+          "the id/ref identity constraints are checked by the validator and compared with lxml, not derived from the "
+          "value (theorems ..._partial)"]
 PLAIN = re.compile(r"-?\d+(\.\d+)?")
 
 
@@ -49,17 +60,30 @@ def oracle(case):
         return oracle_num(case)
     if case.get("op") == "f2s":
         return c01.oracle_f2s(case)
+    if case.get("op") in ("xsdv", "xsds"):  # replays of correspondence cases: nothing to judge in the implementation
+        return codec_run.oracle_valid(case["base"]) if case.get("op") == "xsdv" else None
     return codec_run.oracle_valid(case)
 
 
 def run(ctx):
     ctx.trusted = ["Coq 8.16.1 kernel + vm_compute (no native_compute)",
                    "axioms: none (Print Assumptions: Closed under the global context)",
-                   "translators in harness/props/xmlfmt.py: writer table W (coq/Gen/XmlFmt.v) and the xs:sequence order of "
-                   "the shipped XSD (coq/Gen/XsdOrder.v, fail-closed on non-sequence types), regenerated on every run",
-                   "correspondence relation A (Corr/C01.v) with document order kept: ties W's order to the real writer",
-                   "lxml XMLSchema (validity oracle); numpy format_float_positional; CPython repr/format"]
+                   "translators: harness/props/c03_xsd.py (shipped XSD -> coq/Gen/Xsd2020a.v, fail-closed on every construct "
+                   "outside sequence / choice / all / occurrence bounds / 8 built-in simple types / enumeration and "
+                   "min-max facets / one key + keyref; cross-checked against lxml by relations V and S), "
+                   "harness/props/xmlfmt.py (writer table W -> coq/Gen/XmlFmt.v, xs:sequence order -> XsdOrder.v); all "
+                   "regenerated on every run",
+                   "correspondence relation A (Corr/C01.v) with document order kept: ties W to the real writer; relations "
+                   "V, S (Corr/C03.v): ties Model/XsdCheck.v + Gen/Xsd2020a.v to lxml's validator",
+                   "lxml XMLSchema (validity arbiter); numpy format_float_positional; CPython repr/format"]
     changed = gen_tables.main(["XmlFmt.v", "XsdOrder.v"])
+    try:
+        if c03_xsd.generate():
+            changed = list(changed) + ["Xsd2020a.v"]
+    except c03_xsd.XsdError as e:  # the shipped schema left the supported subset: fail closed
+        ctx.proof_breaks.append({"theorem": "translator c03_xsd (XSD outside the supported subset)", "where": str(e)[:300],
+                                 "log": ""})
+        ctx.log(f"xsd translator refused the schema: {e}")
     if changed:
         ctx.notes.append(f"regenerated {changed} from /repo")
     ctx.build_props(extra_targets=["Corr/C01.vo"])
@@ -81,6 +105,16 @@ def run(ctx):
 
     run_oracle(cases + extra)
     codec_run.xml_corr(ctx, cases, ctx.n(40, 400), doc_order=True)
+    # the Gallina validator vs lxml: written documents + perturbed variants (V), leaf texts (S)
+    if os.path.exists(os.path.join(c03_xsd.GEN, "Xsd2020a.v")) and not any("translator" in b["theorem"] for b in ctx.proof_breaks):
+        c03_corr.doc_cases(ctx, cases, ctx.n(24, 200), ctx.n(8, 12))
+        c03_corr.leaf_cases(ctx, ctx.n(2500, 40000))
+        c03_corr.expr_cases(ctx, cases, ctx.n(40, 400))
+        ctx.coverage["correspondence_cases"] = ctx.coverage.get("correspondence_cases", 0) + \
+            ctx.coverage["validator_vs_lxml_documents"]["documents"] + \
+            ctx.coverage["validator_vs_lxml_documents"]["variants"] + \
+            ctx.coverage["validator_vs_lxml_leaf_texts"]["accepted"] + ctx.coverage["validator_vs_lxml_leaf_texts"]["rejected"] + \
+            ctx.coverage["expressible_values"]["cases"]
     if (ctx.proof_breaks or ctx.corr_breaks) and not ctx.failures:
         ctx.log("proof/correspondence broke; widening the search")
         run_oracle([b["case"] for b in ctx.corr_breaks if isinstance(b.get("case"), dict)])
